@@ -76,6 +76,8 @@ func runC17(w *World) *Result {
 	r.Rule("R-C17-append", "append flag true selects >>, otherwise >; selector feeds the write line; echo without -n", 3)
 	r.Rule("R-C17-args", "driver evaluates path, data and append flag once, in order, as used values, then calls WriteFile / ReadFile / Exists", 3)
 	ProtoRule(w, r, "R-C17-args", func(n string) bool { return n == "Write" || n == "Read" || n == "Exists" })
+	r.Rule("R-C17-wiring", "path, content and append flag reach the Converter parameter they belong to", 4)
+	WiringRule(w, r, "R-C17-wiring", func(m string) bool { return m == "WriteFile" || m == "ReadFile" || m == "Exists" })
 	r.Rule("R-C17-init", "the helper routines behind write/read start from a defined value on every invocation (a second read does not continue the first)", 1)
 	for _, role := range []string{"bash", "batch"} {
 		bb, err := BuildBackend(w, role)
